@@ -1,6 +1,7 @@
 package zzsimrt
 
 import (
+	"reflect"
 	"sync"
 	"unsafe"
 )
@@ -262,4 +263,66 @@ func OnceDo(o *sync.Once, f func(), site string) {
 		}
 	}()
 	f()
+}
+
+// ---------------------------------------------------------------------------------------------
+// sync.Map: every operation is a scheduling point; the operations themselves run on the real map
+// (they are atomic between yields, as the real ones are linearizable). Range snapshots the
+// entries and visits them in a deterministic order rotated by a seeded choice.
+
+type SyncMapW struct{ m *sync.Map }
+
+func SyncMap(m *sync.Map, site string) SyncMapW {
+	if s := active; s != nil && !s.aborting {
+		s.yield(site)
+	}
+	return SyncMapW{m}
+}
+
+func noteAnyKey(k any) {
+	if k == nil || active == nil {
+		return
+	}
+	switch reflect.ValueOf(k).Kind() {
+	case reflect.Pointer, reflect.Chan, reflect.UnsafePointer:
+		NoteKey(k)
+	}
+}
+
+func (w SyncMapW) Load(k any) (any, bool) { return w.m.Load(k) }
+func (w SyncMapW) Store(k, v any)         { noteAnyKey(k); w.m.Store(k, v) }
+func (w SyncMapW) LoadOrStore(k, v any) (any, bool) {
+	noteAnyKey(k)
+	return w.m.LoadOrStore(k, v)
+}
+func (w SyncMapW) LoadAndDelete(k any) (any, bool) { return w.m.LoadAndDelete(k) }
+func (w SyncMapW) Delete(k any)                    { w.m.Delete(k) }
+func (w SyncMapW) Swap(k, v any) (any, bool)       { noteAnyKey(k); return w.m.Swap(k, v) }
+func (w SyncMapW) CompareAndSwap(k, o, n any) bool { return w.m.CompareAndSwap(k, o, n) }
+func (w SyncMapW) CompareAndDelete(k, o any) bool  { return w.m.CompareAndDelete(k, o) }
+func (w SyncMapW) Clear()                          { w.m.Clear() }
+
+func (w SyncMapW) Range(f func(k, v any) bool) {
+	s := active
+	if s == nil || s.aborting {
+		w.m.Range(f)
+		return
+	}
+	snap := map[any]any{}
+	w.m.Range(func(k, v any) bool { snap[k] = v; return true })
+	if len(snap) == 0 {
+		return
+	}
+	keys := sortedKeys(s, snap)
+	if n := len(keys); n > 1 {
+		rot := s.Choose(SSched, n)
+		keys = append(append([]any{}, keys[rot:]...), keys[:rot]...)
+	}
+	for _, k := range keys {
+		if v, ok := w.m.Load(k); ok {
+			if !f(k, v) {
+				return
+			}
+		}
+	}
 }
